@@ -155,7 +155,7 @@ func (ex *Exec) staticCall(fr *Frame, ins ssa.Instruction, fn *ssa.Function, arg
 		nf.callIns = ins
 		nf.old = ex.st.snapshot()
 		nf.runningDefers = isDefer
-		nf.sole = c == nil && !ex.smallLeaf(fn) && !(fn.Parent() != nil && ex.isOwnClosure(fn)) && ex.soleCallee(fr, fn)
+		nf.sole = c == nil && fn.Parent() == nil && ex.soleCallee(fr, fn)
 		if c != nil {
 			env := ex.envFor(nf, nil)
 			for i, rq := range c.Requires {
